@@ -13,6 +13,32 @@ def _cfg1(rng):
     r = pipeline.Realm('example.com'); r.srv = [0]; r.acc = [0]; cfg.realms.append(r)
     return cfg
 
+def eap_fragment_cases(rng, n):
+    """C05 VerifyEAP: the EAP packet is the concatenation of ALL EAP-Message attributes; fragments of any size, also a
+    short one that is not the last, with the length field equal to the total, to a proper prefix of the fragments,
+    or to neither"""
+    out = []
+    for k in range(n):
+        cfg = _cfg1(rng)
+        cfg.verifyeap = (k % 5 != 4)
+        ops = []
+        now = 1000005
+        shapes = [[10, 50], [253, 7, 100], [253, 7], [10], [4, 4], [5, 253], [253, 253, 20], [1, 3], [20, 0, 20], [30, 30, 30]]
+        for i, sizes in enumerate(shapes if k < 2 else [rng.choice(shapes) for _ in range(4)] + [[rng.randrange(1, 254) for _ in range(rng.randrange(1, 4))]]):
+            total = sum(sizes)
+            prefix = [sum(sizes[:j]) for j in range(1, len(sizes))]
+            ln = rng.choice([total, total] + prefix + prefix + [total + 1, max(4, total - 1)]) if k >= 2 else [total, sizes[0]][k]
+            eap = bytearray(rbytes(rng, total))
+            if total >= 4:
+                eap[0] = rng.choice([1, 2]); eap[2], eap[3] = (ln >> 8) & 255, ln & 255
+            frags, p = [], 0
+            for z in sizes:
+                frags.append((79, bytes(eap[p:p + z]))); p += z
+            pkt, _ = pipeline.clean_request(rng, cfg, 0, code=1, ident=30 + i, uname=b'bob@example.com', extra=frags)
+            ops.append('op cpkt 0 %d %s %s' % (now, pipeline.rnd40(rng), hx(pkt)))
+        out.append(('eapfrag-%d' % k, cfg.conf_lines() + cfg.cfg_lines() + ops))
+    return out
+
 def ma_policy_cases(rng, n):
     """C05: RequireMessageAuthenticator / ...Proxy in all combinations x request with/without Message-Authenticator and Proxy-State"""
     out = []
